@@ -929,11 +929,14 @@ func (m *Manager) decodeSessionExpiry(ctx *loadContext, id string, state *vlpers
 			}
 
 			willAt := since.Add(time.Duration(willIn) * time.Second)
-			if time.Now().After(willAt) {
+			if left := time.Until(willAt); left <= 0 {
 				// will delay elapsed. notify keep in list and publish when all persisted sessions loaded
 				ctx.delayedWills = append(ctx.delayedWills, will)
 				will = nil
 				willIn = 0
+			} else {
+				// the timer is started anew: only what is left of the delay has to pass
+				willIn = uint32((left + time.Second - 1) / time.Second)
 			}
 		}
 	}
@@ -944,12 +947,22 @@ func (m *Manager) decodeSessionExpiry(ctx *loadContext, id string, state *vlpers
 			expireIn = uint32(val)
 			expireAt := since.Add(time.Duration(expireIn) * time.Second)
 
-			if time.Now().After(expireAt) {
+			left := time.Until(expireAt)
+			if left <= 0 {
 				// persisted session has expired, wipe it
+				if will != nil {
+					// the session end is the latest moment for its delayed will
+					ctx.delayedWills = append(ctx.delayedWills, will)
+				}
 				ctx.wipeSessions = append(ctx.wipeSessions, id)
 				delete(ctx.preloadConfigs, id)
 
 				return errSessionExpired
+			}
+
+			// the timer is started anew: only what is left of the interval has to pass
+			if secs := (left + time.Second - 1) / time.Second; secs < time.Duration(expireIn) {
+				expireIn = uint32(secs)
 			}
 		} else {
 			m.log.Error("Decode expire at", zap.String("clientId", id), zap.Error(err))
@@ -971,15 +984,8 @@ func (m *Manager) decodeSessionExpiry(ctx *loadContext, id string, state *vlpers
 			ctx.preloadConfigs[id] = &preloadConfig{}
 		}
 
+		// the timer is started with what is left of the intervals: they count from now on
 		var expiringSince time.Time
-
-		if expireIn > 0 {
-			if expiringSince, err = time.Parse(time.RFC3339, state.Expire.Since); err != nil {
-				m.log.Named("persistence").Error("Decode Expire.Since failed",
-					zap.String("clientId", id),
-					zap.Error(err))
-			}
-		}
 
 		ctx.preloadConfigs[id].exp = &expiryConfig{
 			expiryEvent:   m,
